@@ -16,7 +16,7 @@ Bytes(p, k, ex, rest) ==
   Flat(SubSeq(ValidTokens(p), 1, k)) \o Flat([i \in 1..Len(ex) |-> ExtraTokens(p)[ex[i]]])
      \o (IF rest THEN Flat(SubSeq(ValidTokens(p), k + 1, Len(ValidTokens(p)))) ELSE <<>>)
 FmtOf(p) == IF p = "phylip" THEN {"phylip", "phylipmulti"} ELSE IF p = "fasta" THEN {"fasta", "fastaseq"} ELSE {p}
-Cases == UNION {{[fmt |-> f, strict |-> st, pol |-> pol, alpha |-> 2, plen |-> 6, bytes |-> Bytes(p, k, ex, rest)] :
+Cases == UNION {{[fmt |-> f, strict |-> st, pol |-> pol, alpha |-> 2, plen |-> 6, bytes |-> Bytes(p, k, ex, rest), decl |-> <<>>] :
                     f \in FmtOf(p), st \in (IF p = "phylip" THEN {TRUE, FALSE} ELSE {FALSE}), pol \in {0, 1},
                     k \in 0..Len(ValidTokens(p)), ex \in ExtraSeqs(p), rest \in {TRUE, FALSE}} : p \in Parsers}
 Init == c \in Cases
